@@ -3265,7 +3265,7 @@ func ruleTypingSymmetric(c *core.Ctx) {
 // exactly when min(old) < min(new).
 func ruleIntegerNarrowingChecked(c *core.Ctx) {
 	const rule = "X11"
-	c.Rule(rule, "cpp/binary.writeTypeConversion, integer -> integer: the emitted range test has an upper bound iff the old type's maximum exceeds the new type's and a lower bound iff the old type is signed and the new type cannot hold its minimum (all ordered pairs of int8..int64, uint8..uint64, size)", 50)
+	c.Rule(rule, "cpp/binary.writeTypeConversion, integer -> integer: the emitted range test has an upper bound iff the old type's maximum exceeds the new type's and a lower bound iff the old type is signed and the new type cannot hold its minimum (all ordered pairs of int8..int64, uint8..uint64, size); float -> integer conversions test both bounds and round", 60)
 	_, d, p := c.Func("internal/cpp/binary", "writeTypeConversion")
 	if d == nil {
 		c.Undecided(rule, "anchor/internal/cpp/binary.writeTypeConversion", 0, "anchor not found")
@@ -3288,13 +3288,15 @@ func ruleIntegerNarrowingChecked(c *core.Ctx) {
 		name   string
 		signed bool
 		bits   int
+		float  bool
 	}
-	prims := []prim{{"int8", true, 8}, {"int16", true, 16}, {"int32", true, 32}, {"int64", true, 64},
-		{"uint8", false, 8}, {"uint16", false, 16}, {"uint32", false, 32}, {"uint64", false, 64}, {"size", false, 64}}
+	prims := []prim{{"int8", true, 8, false}, {"int16", true, 16, false}, {"int32", true, 32, false}, {"int64", true, 64, false},
+		{"uint8", false, 8, false}, {"uint16", false, 16, false}, {"uint32", false, 32, false}, {"uint64", false, 64, false}, {"size", false, 64, false},
+		{"float32", true, 32, true}, {"float64", true, 64, true}}
 	for _, o := range prims {
 		for _, n := range prims {
-			if o.name == n.name {
-				continue
+			if o.name == n.name || (!o.float && n.float) {
+				continue // int -> float: every value is representable up to rounding, nothing is required
 			}
 			key := "writeTypeConversion/" + o.name + " -> " + n.name
 			maxBits := func(q prim) int {
@@ -3305,6 +3307,12 @@ func ruleIntegerNarrowingChecked(c *core.Ctx) {
 			}
 			needUpper := maxBits(o) > maxBits(n)
 			needLower := o.signed && (!n.signed || o.bits > n.bits)
+			needRound := false
+			if o.float {
+				// a floating-point source: into an integer both bounds are tested and the value is rounded; into a narrower float both bounds
+				needUpper, needLower = !n.float || o.bits > n.bits, !n.float || o.bits > n.bits
+				needRound = !n.float
+			}
 			var texts []string
 			undecided := ""
 			var explore func(choices []bool)
@@ -3358,6 +3366,12 @@ func ruleIntegerNarrowingChecked(c *core.Ctx) {
 				}
 				if needLower && !hasLower {
 					bad = "negative values are converted to " + n.name + " without a test: they wrap around silently instead of raising 'Numeric overflow'"
+				}
+				if i := strings.Index(t, "static_cast<"); i >= 0 {
+					rounded := strings.Contains(t[i:], "round(")
+					if needRound && !rounded {
+						bad = "a floating-point value is converted to " + n.name + " without std::round: 2.7 becomes 2 (truncation) instead of the documented nearest integer"
+					}
 				}
 			}
 			c.Check(bad == "", rule, key, cc.Pos(), fmt.Sprintf("upper test %v, lower test %v, as the value ranges require", needUpper, needLower), bad)
@@ -3467,5 +3481,295 @@ func ruleNoRunTimeGlobals(c *core.Ctx) {
 	if n == 0 {
 		// the rule is about the absence of such writes: keep a positive anchor so that it cannot pass on an empty load
 		c.OK(rule, "anchor/module functions scanned", 0, fmt.Sprintf("%d function declarations scanned", len(c.AllDecls())))
+	}
+}
+
+// E7: a diagnostic sink only ever grows. A variable (or field, or pointee) of type validation.ErrorSink / WarningSink is
+// never assigned after its definition, and its Errors / Warnings slice is only ever appended to: re-initialising it —
+// per file, per pass, per version — throws away what was reported before, and a package with errors is accepted.
+func ruleSinksOnlyGrow(c *core.Ctx) {
+	const rule = "E7"
+	c.Rule(rule, "no validation.ErrorSink / WarningSink is overwritten after its definition (whole value or its Errors/Warnings slice): diagnostics are only ever added", 3)
+	isSink := func(t types.Type) bool {
+		if t == nil {
+			return false
+		}
+		if p, ok := t.Underlying().(*types.Pointer); ok {
+			t = p.Elem()
+		}
+		nt := core.NamedOf(t)
+		return nt != nil && nt.Obj().Pkg() != nil && strings.HasSuffix(nt.Obj().Pkg().Path(), "/internal/validation") && (nt.Obj().Name() == "ErrorSink" || nt.Obj().Name() == "WarningSink")
+	}
+	nSinks := 0
+	for _, d := range c.AllDecls() {
+		p := c.DeclPkg(d)
+		if p == nil || d.Body == nil || c.IsTestFile(d.Pos()) || !strings.HasPrefix(p.PkgPath, core.Mod) {
+			continue
+		}
+		info := p.TypesInfo
+		// the package that defines the sinks may do what it likes inside their methods (Add appends)
+		inValidation := strings.HasSuffix(p.PkgPath, "/internal/validation")
+		mentions := false
+		ast.Inspect(d.Body, func(n ast.Node) bool {
+			if id, ok := n.(*ast.Ident); ok {
+				if v, ok := info.ObjectOf(id).(*types.Var); ok && isSink(v.Type()) {
+					mentions = true
+				}
+			}
+			return !mentions
+		})
+		if !mentions {
+			continue
+		}
+		nSinks++
+		bad := ""
+		var at token.Pos
+		ast.Inspect(d.Body, func(n ast.Node) bool {
+			as, ok := n.(*ast.AssignStmt)
+			if !ok || as.Tok == token.DEFINE {
+				return true
+			}
+			for i, l := range as.Lhs {
+				target := ast.Unparen(l)
+				if st, isStar := target.(*ast.StarExpr); isStar {
+					target = ast.Unparen(st.X)
+				}
+				t := info.TypeOf(target)
+				if isSink(t) {
+					if _, isPtr := info.TypeOf(l).Underlying().(*types.Pointer); isPtr && target == ast.Unparen(l) {
+						continue // re-pointing a *ErrorSink variable is not emptying a sink
+					}
+					bad, at = "`"+types.ExprString(l)+"` is assigned a new value", as.Pos()
+				}
+				if se, isSel := target.(*ast.SelectorExpr); isSel && (se.Sel.Name == "Errors" || se.Sel.Name == "Warnings") && isSink(info.TypeOf(se.X)) && !inValidation {
+					// x.Errors = append(x.Errors, ...) keeps what was there
+					keeps := false
+					if i < len(as.Rhs) {
+						if ce, isCall := ast.Unparen(as.Rhs[i]).(*ast.CallExpr); isCall {
+							if id, isId := ast.Unparen(ce.Fun).(*ast.Ident); isId && id.Name == "append" && len(ce.Args) > 0 && types.ExprString(ce.Args[0]) == types.ExprString(se) {
+								keeps = true
+							}
+						}
+					}
+					if !keeps {
+						bad, at = "`"+types.ExprString(l)+"` is replaced", as.Pos()
+					}
+				}
+			}
+			return true
+		})
+		key := c.FuncName(d) + "/sink"
+		if bad == "" {
+			c.OK(rule, key, d.Pos(), "the sink is only added to")
+		} else {
+			c.Bad(rule, key, at, bad+": the diagnostics recorded so far are dropped — errors of earlier files / passes / versions vanish and the package is accepted")
+		}
+	}
+	_ = nSinks
+}
+
+// X1c: the namespace cache of the import walk belongs to one package. cmd.parsePackageNamespaces memoises parsed
+// namespaces BY NAMESPACE NAME; a package and its previous versions have the same namespace name, so a cache shared
+// between them answers "previous version" with the current model (and nothing of the old version is parsed or
+// validated). Every call from outside the recursion passes a map created in the calling function, and not in front of a
+// loop that contains the call.
+func ruleParseCachePerPackage(c *core.Ctx) {
+	const rule = "X1c"
+	c.Rule(rule, "cmd.parsePackageNamespaces: the memo map passed by every outside caller is created in that caller (make / literal), inside the same loop iteration as the call", 1)
+	ppn, d, p := c.Func("internal/cmd", "parsePackageNamespaces")
+	if d == nil {
+		c.Undecided(rule, "anchor/internal/cmd.parsePackageNamespaces", 0, "anchor not found")
+		return
+	}
+	info := p.TypesInfo
+	// which parameter is the memo
+	mi := -1
+	for i, po := range paramObjs(info, d) {
+		if po != nil {
+			if _, isMap := po.Type().Underlying().(*types.Map); isMap {
+				mi = i
+			}
+		}
+	}
+	if mi < 0 {
+		c.Undecided(rule, "parsePackageNamespaces/memo parameter", d.Pos(), "no map parameter")
+		return
+	}
+	// follow the memo outwards: a caller that merely forwards its own map parameter is looked through
+	type site struct {
+		fn   *ast.FuncDecl
+		call *ast.CallExpr
+		arg  ast.Expr
+	}
+	var sites []site
+	var collect func(target *types.Func, argIndex int, depth int)
+	collect = func(target *types.Func, argIndex int, depth int) {
+		for _, od := range c.AllDecls() {
+			if od.Body == nil || c.DeclPkg(od) != p {
+				continue
+			}
+			me, _ := info.Defs[od.Name].(*types.Func)
+			for _, cs := range c.Calls(od) {
+				if cs.Callee == nil || cs.Callee.Origin() != target || me == target || argIndex >= len(cs.Call.Args) {
+					continue
+				}
+				arg := cs.Call.Args[argIndex]
+				forwarded := false
+				if o := identObj(info, arg); o != nil && depth < 3 {
+					for i, po := range paramObjs(info, od) {
+						if po == o && me != nil {
+							forwarded = true
+							collect(me, i, depth+1)
+						}
+					}
+				}
+				if !forwarded {
+					sites = append(sites, site{od, cs.Call, arg})
+				}
+			}
+		}
+	}
+	collect(ppn, mi, 0)
+	if len(sites) == 0 {
+		c.Undecided(rule, "parsePackageNamespaces/callers", d.Pos(), "no outside caller found")
+		return
+	}
+	for i, s := range sites {
+		key := fmt.Sprintf("%s/memo argument#%d", c.FuncName(s.fn), i+1)
+		e := ast.Unparen(s.arg)
+		var defPos token.Pos
+		if id, ok := e.(*ast.Ident); ok {
+			r := singleDefRHS(info, s.fn.Body, id)
+			if r != ast.Expr(id) {
+				e = ast.Unparen(r)
+				defPos = r.Pos()
+			}
+		}
+		fresh := false
+		switch x := e.(type) {
+		case *ast.CompositeLit:
+			fresh = true
+		case *ast.CallExpr:
+			if id, ok := ast.Unparen(x.Fun).(*ast.Ident); ok && id.Name == "make" {
+				fresh = true
+			}
+		}
+		if !fresh {
+			c.Bad(rule, key, s.call.Pos(), "the parse cache `"+types.ExprString(s.arg)+"` is not created by the caller: packages validated in one run share it, and a previous version (same namespace name as the current package) is answered from the cache instead of being parsed and validated")
+			continue
+		}
+		// created in front of a loop that contains the call?
+		shared := false
+		if defPos != 0 {
+			ast.Inspect(s.fn.Body, func(n ast.Node) bool {
+				switch l := n.(type) {
+				case *ast.ForStmt, *ast.RangeStmt:
+					if l.Pos() <= s.call.Pos() && s.call.End() <= l.End() && !(l.Pos() <= defPos && defPos <= l.End()) {
+						shared = true
+					}
+				}
+				return true
+			})
+		}
+		// or used by more than one call
+		if defPos != 0 {
+			uses := 0
+			if id, ok := ast.Unparen(s.arg).(*ast.Ident); ok {
+				o := info.ObjectOf(id)
+				ast.Inspect(s.fn.Body, func(n ast.Node) bool {
+					if ce, ok := n.(*ast.CallExpr); ok {
+						for _, a := range ce.Args {
+							if identObj(info, a) == o {
+								uses++
+							}
+						}
+					}
+					return true
+				})
+			}
+			if uses > 1 {
+				shared = true
+			}
+		}
+		c.Check(!shared, rule, key, s.call.Pos(), "a fresh cache for this package", "one parse cache serves several packages (created once, used by calls in a loop / by several calls): a previous version is answered with the current package's namespace")
+	}
+}
+
+// X12 (C09): arithmetic is defined between numbers only. The *BinaryExpression case of resolveComputedFields is evaluated
+// over the kinds of its operands (integer, floating point, complex, another primitive such as string/bool/date, not a
+// primitive) x whether the two types have a common type: whenever an operand is not a number the case must report an
+// error and must not give the expression a type — also when both operands have the SAME non-numeric type, for which a
+// common type exists.
+func ruleArithmeticOnNumbersOnly(c *core.Ctx) {
+	const rule = "X12"
+	c.Rule(rule, "dsl.resolveComputedFields, case *BinaryExpression: for every pair of operand kinds with a non-numeric operand an error is reported and no resolved type is assigned, whether or not the operand types have a common type", 12)
+	_, d, p := c.Func("pkg/dsl", "resolveComputedFields")
+	if d == nil {
+		c.Undecided(rule, "anchor/pkg/dsl.resolveComputedFields", 0, "anchor not found")
+		return
+	}
+	info := p.TypesInfo
+	cc, obj := caseOfKind(info, d, "*BinaryExpression")
+	if cc == nil {
+		c.Undecided(rule, "anchor/case *BinaryExpression", d.Pos(), "the case was not found")
+		return
+	}
+	kinds := []struct{ label, name string }{
+		{"integer", "PrimitiveKindInteger"}, {"float", "PrimitiveKindFloatingPoint"}, {"complex", "PrimitiveKindComplexFloatingPoint"},
+		{"other primitive", "PrimitiveKindOther"}, {"not a primitive", ""},
+	}
+	numeric := map[string]bool{"PrimitiveKindInteger": true, "PrimitiveKindFloatingPoint": true, "PrimitiveKindComplexFloatingPoint": true}
+	for _, l := range kinds {
+		for _, r := range kinds {
+			if numeric[l.name] && numeric[r.name] {
+				continue
+			}
+			for _, commonErr := range []bool{false, true} {
+				if !commonErr && l.name != r.name {
+					continue // different kinds without a number among them: GetCommonType fails
+				}
+				key := fmt.Sprintf("BinaryExpression/%s op %s/common type %v", l.label, r.label, !commonErr)
+				okAll, undecided, witness := true, "", ""
+				var explore func(choices []bool)
+				explore = func(choices []bool) {
+					pi := &pinterp{c: c, choices: choices, typing: true, lKind: l.name, rKind: r.name, commonErr: commonErr, scen: pscen{"BinaryOpAdd", "", ""}}
+					env := &penv{vars: map[types.Object]pval{}}
+					if obj != nil {
+						env.vars[obj] = pval{k: pvNode, s: "parent"}
+					}
+					pi.exec(info, cc.Body, env)
+					if pi.unknown != "" {
+						undecided = pi.unknown
+						return
+					}
+					if pi.asked > len(choices) {
+						for _, b := range []bool{false, true} {
+							explore(append(append([]bool(nil), choices...), b))
+						}
+						return
+					}
+					hasErr, typed := false, false
+					for _, ev := range pi.events {
+						if ev == "error" {
+							hasErr = true
+						}
+						if ev == "typed" {
+							typed = true
+						}
+					}
+					if !hasErr || typed {
+						okAll = false
+						witness = fmt.Sprintf("error reported: %v, type assigned: %v", hasErr, typed)
+					}
+				}
+				explore(nil)
+				if undecided != "" {
+					c.Undecided(rule, key, cc.Pos(), "the case could not be evaluated for these operands: "+undecided)
+					continue
+				}
+				c.Check(okAll, rule, key, cc.Pos(), "rejected with an error, no type assigned",
+					fmt.Sprintf("an arithmetic operator between a %s and a %s operand is accepted (%s): `string * string`, `date - date`, `Point / Point` pass validation and the generators print the operator between values the target languages do not define it for", l.label, r.label, witness))
+			}
+		}
 	}
 }
